@@ -83,39 +83,45 @@ class LineSet(primitive.Primitive):
         self.index.shape = (-1, 2, self.nindices)
         self.nlines = len(self.index)
 
-        if len(self.index) > 0:
-            self._vertex = sources['VERTEX'][0][4].data
-            self._vertex_index = self.index[:, :, sources['VERTEX'][0][0]]
+        # The array views exist for an empty line set as well (they have zero rows), so that
+        # item access and iteration end with IndexError as for any other sequence.
+        nonempty = len(self.index) > 0
+
+        self._vertex = sources['VERTEX'][0][4].data
+        self._vertex_index = self.index[:, :, sources['VERTEX'][0][0]]
+        if nonempty:
             self.maxvertexindex = numpy.max(self._vertex_index)
             checkSource(sources['VERTEX'][0][4], ('X', 'Y', 'Z'),
                         self.maxvertexindex)
         else:
-            self._vertex = None
-            self._vertex_index = None
             self.maxvertexindex = -1
 
-        if 'NORMAL' in sources and len(sources['NORMAL']) > 0 \
-                and len(self.index) > 0:
+        if 'NORMAL' in sources and len(sources['NORMAL']) > 0:
             self._normal = sources['NORMAL'][0][4].data
             self._normal_index = self.index[:, :, sources['NORMAL'][0][0]]
-            self.maxnormalindex = numpy.max(self._normal_index)
-            checkSource(sources['NORMAL'][0][4], ('X', 'Y', 'Z'),
-                        self.maxnormalindex)
+            if nonempty:
+                self.maxnormalindex = numpy.max(self._normal_index)
+                checkSource(sources['NORMAL'][0][4], ('X', 'Y', 'Z'),
+                            self.maxnormalindex)
+            else:
+                self.maxnormalindex = -1
         else:
             self._normal = None
             self._normal_index = None
             self.maxnormalindex = -1
 
-        if 'TEXCOORD' in sources and len(sources['TEXCOORD']) > 0 \
-                and len(self.index) > 0:
+        if 'TEXCOORD' in sources and len(sources['TEXCOORD']) > 0:
             self._texcoordset = tuple([texinput[4].data
                                        for texinput in sources['TEXCOORD']])
             self._texcoord_indexset = tuple([self.index[:, :, sources['TEXCOORD'][i][0]]
                                              for i in range(len(sources['TEXCOORD']))])
-            self.maxtexcoordsetindex = [numpy.max(tex_index)
-                                        for tex_index in self._texcoord_indexset]
-            for i, texinput in enumerate(sources['TEXCOORD']):
-                checkSource(texinput[4], ('S', 'T'), self.maxtexcoordsetindex[i])
+            if nonempty:
+                self.maxtexcoordsetindex = [numpy.max(tex_index)
+                                            for tex_index in self._texcoord_indexset]
+                for i, texinput in enumerate(sources['TEXCOORD']):
+                    checkSource(texinput[4], ('S', 'T'), self.maxtexcoordsetindex[i])
+            else:
+                self.maxtexcoordsetindex = -1
         else:
             self._texcoordset = tuple()
             self._texcoord_indexset = tuple()
